@@ -158,7 +158,7 @@ impl RunState {
 //@sub <<<'string: for offset in 0..=u16::MAX {>>> ==> <<<'string: for offset in 0..=u16::MAX
                     invariant *self == *old(self),
                 {>>>
-//@sub <<<for chr in [chr_raw >> 8, chr_raw & 0xFF] {>>> ==> <<<let verif_arr = [chr_raw >> 8, chr_raw & 0xFF];
+//@sub <<<for chr in [chr_raw & 0xFF, chr_raw >> 8] {>>> ==> <<<let verif_arr = [chr_raw & 0xFF, chr_raw >> 8];
                     for verif_i in 0..2usize
                         invariant *self == *old(self),
                     {
